@@ -512,9 +512,26 @@ func runC03(w *World, r *Report) {
 	}
 	r.Floor("C03-a", total, 90)
 	c03TableExtents(w, r)
+	// the GPT region writes, classified and checked for exact array bytes by the C09 write-side analysis
+	{
+		gw := w.Method("partition/gpt", "Table", "Write")
+		sub := newReport("C03", r.Tier)
+		c09Write(w, sub, gw, c09FindRoles(w, gw))
+		for _, o := range sub.Obls {
+			if o.Rule != "C09-a" {
+				continue
+			}
+			o.Rule = "C03-b"
+			if _, dup := r.seen[o.Key()]; !dup {
+				r.Obls = append(r.Obls, o)
+				r.seen[o.Key()] = o
+			}
+		}
+	}
 	c03StreamBound(w, r, "C03-c")
 	c03RangeEnd(w, r)
 	c03SubStorage(w, r)
+	sysUses(w, r, "C03-a", "the raw *os.File from Sys() is not translated by backend.Sub, so I/O through it ignores the range the component was given: ")
 	r.Floor("C03-b", r.countRule("C03-b"), 6)
 	r.Floor("C03-c", r.countRule("C03-c"), 4)
 	r.Floor("C03-e", r.countRule("C03-e"), 5)
@@ -880,6 +897,25 @@ func c03SubStorage(w *World, r *Report) {
 		})
 		r.Check(got["offset"] == "offset" && got["size"] == "size", "C03-e", fnName(wm), "writable wrapper inherits offset and size", w.relFile(wm.Pos()), "",
 			fmt.Sprintf("SubStorage.Writable builds its wrapper with offset<-%s size<-%s", got["offset"], got["size"]))
+		// the wrapped writer is exactly what the underlying storage's Writable() returned (no unwrapping that would
+		// drop an outer translation)
+		allInstrs(wm, func(ins ssa.Instruction) {
+			st, ok := ins.(*ssa.Store)
+			if !ok {
+				return
+			}
+			if _, f, _, ok := fieldOfAddr(st.Addr); ok && f.Name() == "underlying" {
+				p := w.prov(st.Val, provOpts{})
+				only := len(p.Roots) > 0
+				for _, rt := range p.Roots {
+					if !(rt.Kind == RCall && rt.Meth != nil && rt.Meth.Name() == "Writable") {
+						only = false
+					}
+				}
+				r.Check(only, "C03-e", fnName(wm), "wrapper writes through the underlying Writable() result", w.relFile(st.Pos()), "",
+					"the writable wrapper's target is not simply the underlying storage's Writable(): "+strings.Join(p.rootStrings(), ","))
+			}
+		})
 	}
 }
 
